@@ -98,12 +98,45 @@ def demo(sid):
     return ok
 
 
+def confirm(sid):
+    """independent confirmation of a seeded change: patch applies to HEAD, the full repo test suite still
+    passes with it, the demonstration passes on HEAD and fails with the patch"""
+    d = os.path.join(VERIF, "seeded", sid)
+    wt = f"/tmp/seed_confirm_{sid}_{os.getpid()}"
+    sh(["git", "-C", REPO, "worktree", "remove", "--force", wt])
+    sh(["git", "-C", REPO, "worktree", "add", "--detach", wt, "HEAD"])
+    res = {"seed": sid, "head": sh(["git", "-C", REPO, "rev-parse", "--short", "HEAD"]).stdout.strip()}
+    try:
+        env = dict(ENV, PYTHONPATH=wt)
+        r = sh(["/venv/bin/python", os.path.join(d, "demo.py")], env=env, cwd=wt, timeout=1200)
+        res["demo_on_head_exit"] = r.returncode
+        r = sh(["git", "-C", wt, "apply", os.path.join(d, "patch.diff")])
+        res["patch_applies"] = r.returncode == 0
+        r = sh(["/venv/bin/python", os.path.join(d, "demo.py")], env=env, cwd=wt, timeout=1200)
+        res["demo_on_patched_exit"] = r.returncode
+        res["demo_tail"] = r.stdout.strip().splitlines()[-2:]
+        r = sh("/venv/bin/python -m pytest -q -p no:cacheprovider --timeout=900 tests 2>&1 | tail -1", env=env, cwd=wt, timeout=3000)
+        res["pytest_tail"] = r.stdout.strip().splitlines()[-1:]
+        import re
+        t = res["pytest_tail"][0] if res["pytest_tail"] else ""
+        res["tests_pass"] = bool(re.search(r"\b373 passed\b", t)) and not re.search(r"\b\d+ (failed|error)", t)
+    finally:
+        sh(["git", "-C", REPO, "worktree", "remove", "--force", wt])
+    res["confirmed"] = bool(res.get("patch_applies") and res.get("tests_pass") and res.get("demo_on_head_exit") == 0
+                            and res.get("demo_on_patched_exit") not in (0, None))
+    json.dump(res, open(os.path.join(d, "confirm.json"), "w"), indent=1)
+    print(sid, "CONFIRMED" if res["confirmed"] else "NOT CONFIRMED", res.get("pytest_tail"))
+    return res["confirmed"]
+
+
 if __name__ == "__main__":
     a = sys.argv[1:]
     tier = a[a.index("--tier") + 1] if "--tier" in a else "quick"
     props = a[a.index("--props") + 1].split(",") if "--props" in a else None
     if a[0] == "run":
         run(a[1], tier, "--inplace" in a, props)
+    elif a[0] == "confirm":
+        sys.exit(0 if confirm(a[1]) else 1)
     elif a[0] == "demo":
         sys.exit(0 if demo(a[1]) else 1)
     elif a[0] == "all":
